@@ -120,6 +120,8 @@ def c02(tier):
     jobs = []
     for src in templates.C02_TEMPLATES:
         for symlit in (0, 1):
+            if symlit and tier == 'quick' and sum(ch.isdigit() for ch in src) > 3:
+                continue   # many symbolic literals: thorough tier only
             jobs.append((H('.', 'HarnessC02Template'), P('.'), None, {'params': {'src': src, 'symlit': symlit, 'maxlen': 2}, 'label': '%s [symlit=%d]' % (src, symlit), 'job_timeout': 150 if tier == 'quick' else 900}))
     if tier != 'quick':
         # the C01 templates in which a literal occurs, compiled twice
